@@ -72,7 +72,7 @@ def replay(ctx, obj):
 
 def extension_stream(ctx):
     """C16 (dense): settled values are stable under extension of the signals."""
-    pass
+    D.extension_stream(ctx)
 
 
 def run(ctx):
